@@ -518,6 +518,17 @@ func (fc *FnCtx) reachCanary(st *State, pos token.Pos) {
 		PC: append([]string(nil), st.pc...), Vacuity: true, Pos: pp})
 }
 
+// branchCanary: the same for the branches of `if` / `switch` statements in the body of the function under contract
+// itself (not in callees executed inline, whose branches are often decided by the call context).
+func (fc *FnCtx) branchCanary(st *State, pos token.Pos, what string) {
+	if fc != fc.root() || !pos.IsValid() {
+		return
+	}
+	pp := fc.eng.fset.Position(pos)
+	fc.canaries = append(fc.canaries, &Obligation{Name: fmt.Sprintf("%s#reach:%s@%s:%d", fc.key, what, shortFile(pp.Filename), pp.Line), Kind: "vacuity", Goal: "false",
+		PC: append([]string(nil), st.pc...), Vacuity: true, Pos: pp})
+}
+
 // finish: run deferred calls, then check postconditions, frame and lock discipline.
 func (fc *FnCtx) finish(st *State, vals []Val, panicked bool) {
 	for _, o := range fc.runDefers(st, 0) {
